@@ -519,4 +519,5 @@ func TestC10(t *testing.T) {
 	}
 	c10Part.Run(s, hx.PerShard(hx.Pick(64000, 800000)))
 	c10RawPart.Run(s, hx.PerShard(hx.Pick(6400, 80000)))
+	c10Part.RunConcurrent(s, 8, hx.Pick(500, 8000))
 }
